@@ -153,15 +153,28 @@ func (m *Migrator) MigrateFiles(patterns []string, outputPath string) error {
 	return nil
 }
 
-// wirePackage returns the first package with a file importing wire: the output
-// is written for that package, so its own types must stay unqualified.
+// wirePackage returns the first package with a file that holds wire patterns (failing
+// that, the first one importing wire): the output is written for that package, so its
+// own types must stay unqualified. A package that merely imports wire, e.g. for a
+// function returning wire.ProviderSet, contributes nothing to the output.
 func (m *Migrator) wirePackage(pkgs []*packages.Package) *packages.Package {
+	var importing *packages.Package
 	for _, pkg := range pkgs {
 		for _, file := range pkg.Syntax {
-			if m.parser.FindWireImport(file) != "" {
+			wireImport := m.parser.FindWireImport(file)
+			if wireImport == "" {
+				continue
+			}
+			if importing == nil {
+				importing = pkg
+			}
+			if patterns, _ := m.parser.ExtractPatterns(file, pkg.TypesInfo, wireImport, ""); len(patterns) > 0 {
 				return pkg
 			}
 		}
+	}
+	if importing != nil {
+		return importing
 	}
 	if len(pkgs) > 0 {
 		return pkgs[0]
